@@ -40,7 +40,7 @@ META = {
                    'interrupt} x scripted draw {well inside, well outside} x order of force/discard x instance / class-level operation (3072 rows) is enumerated '
                    'completely against the real recorder with a scripted RNG that counts draws; beyond it seeded histories: '
                    'same seed twice, paired histories differing only in operation content and outcome, long-run kept fraction, '
-                   'histories mixing classes with different parameters (force must not leak), and the S3 size-based calculator. Also: a straggler thread forcing sampling after its operation ended, one decorated operation inherited by classes with different parameters (and parameters applied after the first run), and a storage that fails to abort on discard. A worker of the previous operation still inside its force / discard request while the next operation runs (two placed pre-emptions).'),
+                   'histories mixing classes with different parameters (force must not leak), and the S3 size-based calculator. Also: a straggler thread forcing sampling after its operation ended, one decorated operation inherited by classes with different parameters (and parameters applied after the first run), and a storage that fails to abort on discard. A worker of the previous operation still inside its force / discard request while the next operation runs (two placed pre-emptions). How a class got its parameters (object / keywords / none); an explicit discard after recording was switched off.'),
     'level_note': 'Trusted: scripted RNG seam (recorder._random / cassette._random instance attributes), spy cassette. The exact draw stream of the real RNG and a draw exactly equal to the rate are deliberately not pinned.',
     'rule': ('evaluation = one table row, or one seeded history (200-2000 operations on one recorder); non-trivial = the row / history '
              'reached a sampling decision; distinct = distinct event-log digest. exhaustive=true refers to the 3072-row table.'),
